@@ -58,7 +58,9 @@ func main() {
 			"CreateSnapshot(B).Get (value+version) and CreateXMSnapshotReader(B).Get are compared with what the live reader answered when B was the tip (recorded on a history-free node); the tip "+
 			"snapshot is additionally checked never to expose pending writes; case = one history; non-trivial = a reorganisation happened and a pool write was pending during an audit; "+
 			"plus readers running BESIDE block processing (one growing chain, peer blocks and own blocks, pending traffic on the same keys, storage-latency jitter): snapshots of already applied "+
-			"blocks, the tip reader, and strict tip-by-id readers (GetLatestBlockid, then CreateXMSnapshotReader / CreateSnapshot of exactly that id; expected answer = a function of the id alone)")
+			"blocks, the tip reader, and strict tip-by-id readers (GetLatestBlockid, then CreateXMSnapshotReader / CreateSnapshot of exactly that id; expected answer = a function of the id alone); "+
+			"plus snapshot reads under transient storage READ errors: for every (chain block, key) of histories with deleted-and-re-created keys, never-deleted keys and pending writes on top, each reader's call "+
+			"is repeated with exactly its k-th storage read failing once (not 'not found'), for every k: an error or exactly the recorded answer")
 	defer sn.CleanupScratch()
 	nh := r.N(150, 4000)
 	o := gen.DefaultOpts()
@@ -174,7 +176,9 @@ func main() {
 	concurrentReaders(r)
 	t1 := time.Now()
 	pendingDeleteReaders(r)
-	fmt.Fprintf(os.Stderr, "C18: concurrent readers %.1fs, readers beside pool roll-back %.1fs\n", t1.Sub(t0).Seconds(), time.Since(t1).Seconds())
+	t2 := time.Now()
+	readFaults(r)
+	fmt.Fprintf(os.Stderr, "C18: concurrent readers %.1fs, readers beside pool roll-back %.1fs, read faults %.1fs\n", t1.Sub(t0).Seconds(), t2.Sub(t1).Seconds(), time.Since(t2).Seconds())
 	r.Floor("conc.snapshot-reads", 20000)
 	r.Floor("conc.pool-rollbacks", 50)
 	// the strict tip-by-id readers: enough reads that can tell a tip block from its parent, enough of
@@ -190,6 +194,16 @@ func main() {
 	r.Floor("conc.pending-delete.pool-rollbacks", 600)
 	r.Floor("conc.pending-delete.snapshot-reads", 5000)
 	r.Floor("conc.pending-delete.rounds-with-the-deletes-still-pending-at-the-end", 2)
+	// snapshot reads with one storage read of the call failing
+	r.Floor("readfault.faulted-reads", 10000)
+	r.Floor("readfault.faulted-reads.first-storage-read-of-the-call", 2000)
+	r.Floor("readfault.faulted-reads.later-storage-read-of-the-call", 8000)
+	r.Floor("readfault.faulted-reads.key-deleted-and-re-created", 2000)
+	r.Floor("readfault.faulted-reads.key-written-never-deleted", 4000)
+	r.Floor("readfault.faulted-reads.key-with-a-pending-write", 3500)
+	r.Floor("readfault.faulted-reads.past-block", 8000)
+	r.Floor("readfault.faulted-reads.tip-reader", 400)
+	r.Floor("readfault.passes", 12)
 	r.Floor("snap.audits", 800)
 	r.Floor("snap.reads", 50000)
 	r.Floor("snap.reads.written-key", 5000)
